@@ -112,6 +112,8 @@ def type_labels(spec):
         maxdepth = max(maxdepth, d)
         k = s["k"]
         if k == "struct":
+            if any(t["k"] == "ref" and "default" in t for _, t in s["fields"]):
+                lb.add("ref_field_with_declared_default")
             nd = sum(1 for _, t in s["fields"] if is_dynamic(t))
             if nd >= 1:
                 lb.add("has_dynamic_struct")
@@ -226,7 +228,12 @@ def _draw_type(draw, cfg, namer, budget, depth, kind, elems):
         fields = []
         for i in range(nf):
             fk = _draw_kind(draw, cfg, depth + 1, budget, elems)
-            fields.append([f"f{i}", _draw_type(draw, cfg, namer, budget, depth + 1, fk, elems)])
+            ft = _draw_type(draw, cfg, namer, budget, depth + 1, fk, elems)
+            if ft["k"] == "ref" and draw(st.integers(0, 4)) == 0:
+                # the field declares a non-null default (xo.Field(Ref[T], default=<data>)): an omitted field, and every
+                # item of an array created by length, gets a referent of its own holding that value
+                ft["default"] = _draw_value(draw, ft["to"], cfg)
+            fields.append([f"f{i}", ft])
         return {"k": "struct", "name": name, "fields": fields}
     if kind == "array":
         nd = draw(st.sampled_from([1, 1, 2, 2, 3])) if cfg.allow_nd else 1
